@@ -87,12 +87,12 @@ Qed.
 (* ---------------------------------------------------------------------------------------------------- *)
 (* EExpress                                                                                              *)
 (* ---------------------------------------------------------------------------------------------------- *)
-Lemma express_pinv : forall s P nm cbp dig life, pinv s P -> is_nil nm && is_none dig = false ->
-  exists s', express s nm cbp dig life = (s', [OSendInt (npid s)]) /\
-    pinv s' (P ++ [mkSint (npid s) nm cbp dig (now s + lifetime life)%N]) /\
+Lemma express_with_pinv : forall b s P nm cbp dig life, pinv s P -> is_nil nm && is_none dig = false ->
+  exists s', express_with b s nm cbp dig life = (s', [if b then OSendInt (npid s) else ORet 1%N]) /\
+    pinv s' (P ++ [mkSintO (npid s) nm cbp dig (now s + lifetime life)%N (negb b)]) /\
     now s' = now s /\ npid s' = S (npid s) /\ fib s' = fib s /\ inc s' = inc s /\ panicked s' = panicked s.
 Proof.
-  intros s P nm cbp dig life I Hne. unfold express. rewrite Hne.
+  intros b s P nm cbp dig life I Hne. unfold express_with. rewrite Hne.
   pose proof (pi_wf s P I) as W.
   destruct (match_always_spec _ [] nm (pit s) 0 W (wf_next _ _ _ W)) as (h' & n & Hma & W' & SO & Hex & Hpar).
   rewrite Hma.
@@ -159,6 +159,13 @@ Proof.
       * inversion Ht. subst t. simpl in Hf. discriminate.
       * destruct k; discriminate.
 Qed.
+
+Lemma express_pinv : forall s P nm cbp dig life, pinv s P -> is_nil nm && is_none dig = false ->
+  exists s', express s nm cbp dig life = (s', [OSendInt (npid s)]) /\
+    pinv s' (P ++ [mkSint (npid s) nm cbp dig (now s + lifetime life)%N]) /\
+    now s' = now s /\ npid s' = S (npid s) /\ fib s' = fib s /\ inc s' = inc s /\ panicked s' = panicked s.
+Proof. intros. apply (express_with_pinv true); assumption. Qed.
+
 
 (* ---------------------------------------------------------------------------------------------------- *)
 (* resolution events: shared tail (DeleteIf after the node lists were rewritten)                         *)
